@@ -16,6 +16,7 @@ processes (crash child -> [resume child under another crash]* -> final resume ch
 
 Oracle after the final resume: see `judge`."""
 import os
+import re
 import shutil
 
 import numpy as np
@@ -159,7 +160,7 @@ def gen_cases(tier, seed):
                                  "phases": ["after"], "mod": [int(g.integers(0, 3)), 3]})
         for name in ("bomd-batch-mixed", "xl-k3"):
             add(name, {"kind": "sequence", "n": 1, "seeds": [int(g.integers(0, 2 ** 31))]})
-        add("langevin", {"kind": "syscall", "points": [["pwrite64", 0.36], ["pwrite64", 0.53], ["pwrite64", 0.97]]}, 4)
+        add("langevin", {"kind": "syscall", "points": [["pwrite64", 0.36], ["pwrite64-superblock", 2], ["pwrite64", 0.97]]}, 4)
         add("langevin", {"kind": "syscall", "points": [["writev", 0.1], ["writev", 0.55]]}, 4)
         add("bomd-batch-mixed", {"kind": "syscall", "points": [["write", 0.2], ["rename", 0.99]]}, 4)
         add("langevin", {"kind": "sigkill", "seeds": [int(x) for x in g.integers(0, 2 ** 31, 3)]})
@@ -233,9 +234,32 @@ def _vec_gate_sensitive(cfg):
     return bool(pos) and any(c % min(pos) for c in pos)
 
 
-def classify(cfg, clause, detail, last_ckpt, resume_steps):
+def _hdf5_torn(clause, detail, crash_kinds, resume_steps):
+    """A SIGKILL delivered at the entry of a pwrite64 on an .h5 file (strace injection), i.e. inside an H5Fflush /
+    chunk write of libhdf5, and the damage is an HDF5-level one: the final file cannot be read, the resume died
+    inside HDF5 (OSError from h5py or a fatal signal), or datasets differ only in rows written after the checkpoint
+    that was resumed from (the rows the torn flush covered)."""
+    if not crash_kinds or any(k != "syscall:pwrite64" for k in crash_kinds):
+        return False
+    if clause == "h5-unreadable":
+        return True
+    if clause == "resume-raised":
+        code = detail.get("exit")
+        err, tb = detail.get("error") or "", detail.get("tb") or ""
+        return (isinstance(code, int) and code < 0) or err.startswith("OSError") or "h5py" in tb
+    if clause == "h5-content":
+        after = min(resume_steps) if resume_steps else 0
+        probs = detail.get("problems", [])
+        return bool(probs) and all(p.get("what") in ("value", "steps") and p.get("first_bad_step", -1) > after
+                                   for p in probs)
+    return False
+
+
+def classify(cfg, clause, detail, last_ckpt, resume_steps, crash_kinds=()):
     """Deterministic mechanism classifier over the witness (configuration + what the restart file on disk
     contains + which part of the oracle failed)."""
+    if _hdf5_torn(clause, detail, list(crash_kinds), resume_steps):
+        return "hdf5-torn-by-kill-inside-write"
     if _has_ion(cfg) and last_ckpt and last_ckpt.get("loadable") and not (last_ckpt.get("has_charge")
                                                                         and last_ckpt.get("has_mult")):
         if clause in ("resume-raised", "h5-content", "xyz-frames"):
@@ -283,7 +307,8 @@ def judge(case, cfg, ref, d, hist, mon, margins):
         detail.update(config=case["config"], engine=cfg["engine"], mols=cfg["mols"], cadences=cad, steps=N,
                       crashes=[h.get("crash_desc") for h in hist if h.get("crash_desc")],
                       resumed_from=resume_steps)
-        m = classify(cfg, clause, detail, last_ckpt, resume_steps) if mech == "auto" else mech
+        kinds = [h.get("crash_kind") for h in hist if h.get("crash_desc")]
+        m = classify(cfg, clause, detail, last_ckpt, resume_steps, kinds) if mech == "auto" else mech
         viol.append({"clause": clause, "mech": m, "detail": detail})
 
     # (1) whenever a restart file exists after a crash it is complete and loadable and names a step <= planned
@@ -326,7 +351,7 @@ def judge(case, cfg, ref, d, hist, mon, margins):
         try:
             got = mdio.read_h5(cfg["prefix"] + "." + key)
         except OSError as exc:
-            v("h5-unreadable", {"file": key, "error": str(exc)[:300]}, mech=None)
+            v("h5-unreadable", {"file": key, "error": str(exc)[:300]})
             continue
         probs, worst, bitwise, n = mdio.compare_h5_files(got, ref["h5"][key], TOL, TOL)
         mon["h5_files_compared"] += 1
@@ -337,6 +362,11 @@ def judge(case, cfg, ref, d, hist, mon, margins):
         if probs:
             # add the step of the first deviating row, for the witness
             for p in probs:
+                if p.get("what") == "steps":
+                    diff = [e for o, e in zip(p["observed"], p["expected"]) if o != e]
+                    if diff:
+                        p["first_bad_step"] = int(diff[0])
+                    continue
                 fr = p.get("first_bad_row")
                 root = p["dataset"].rsplit("/", 1)[0] if "/" in p.get("dataset", "") else None
                 for cand in ([root + "/steps"] if root else []) + ["data/steps"]:
@@ -454,6 +484,9 @@ class Player:
                 delivered += 1
                 self.mon["crashes_delivered"] += 1
                 rec["crash_desc"] = c["desc"]
+                rec["crash_kind"] = ("syscall:" + c["strace_cls"]) if "strace_cls" in c else \
+                    ("sigkill" if ("kill_at" in c or "kill_after" in c) else
+                     ("exception" if (c.get("crash") or {}).get("mode") == "raise" else "logical"))
                 rec["ckpt_after"] = _inspect(cfg, self.sdir, "i%d" % len(hist))
                 action = "resume" if rec["ckpt_after"].get("exists") else "run"
             if need_final:
@@ -502,6 +535,9 @@ def _syscall_census(case, d):
             body = parts[1]
             if name == "pwrite64" and ".h5>" in body:
                 counts["pwrite64"] += 1
+                mm = re.search(r", (\d+), (\d+)\) += ", body)
+                if mm and int(mm.group(2)) == 0:      # HDF5 superblock (carries the end-of-allocation address)
+                    counts.setdefault("pwrite64_superblock_ordinals", []).append(counts["pwrite64"])
             elif name == "write" and ".xyz>" in body:
                 counts["write"] += 1
             elif name == "writev" and (".tmp_ckpt_" in body or ".restart.pt" in body):
@@ -615,6 +651,13 @@ def run_case(case):
             if "points" in plan:          # quick tier: [[class, fraction of that class' census], ...]
                 todo = []
                 for cls, f in plan["points"]:
+                    if cls == "pwrite64-superblock":
+                        # the f-th (0-based, negative from the end) write of the HDF5 superblock: the last write of
+                        # an H5Fflush that moved the end-of-allocation address
+                        ords = counts.get("pwrite64_superblock_ordinals", [])
+                        if -len(ords) <= int(f) < len(ords):
+                            todo.append(("pwrite64", ords[int(f)], counts["pwrite64"]))
+                        continue
                     total = counts.get(cls, 0)
                     if total:
                         todo.append((cls, min(total, max(1, 1 + int(float(f) * total))), total))
